@@ -189,6 +189,25 @@ def dataflow_parts(pid: str, tier: str):
     return parts
 
 
+COMPOSE_FUNCS = ["tawazi._dag.dag.BaseDAG.compose", "tawazi._dag.dag.BaseDAG.alias_to_ids", "tawazi._dag.dag.BaseDAG._get_single_xn_by_alias",
+                 "tawazi._dag.digraph.DiGraphEx.ancestors_of_iter", "tawazi.node.node.ArgExecNode", "tawazi.node.node.make_axn_id",
+                 "tawazi._dag.dag.DAG.__call__", "tawazi._dag.helpers.async_execute", "tawazi._dag.helpers.extend_results_with_args"]
+
+
+def compose_parts(pid: str, tier: str):
+    from harness.compose import CCfg, run_compose
+
+    P = functools.partial
+    q = tier == "quick"
+    b = {"N": 3, "inputs": "Ellipsis, [], singletons, pairs, the original DAG argument, a shared tag", "outputs": "single alias, [], singleton list, pairs",
+         "alias forms": "reference / id / tag", "uses": "indexed dependency, keyword dependency, one activation edge, constant / required / defaulted DAG argument"}
+    parts = [Part("compose-N3", P(run_compose, CCfg(N=3, setup=True)), b, 900, 7, ["w_error_case", "w_proper_composition", "w_flag_from_input"], COMPOSE_FUNCS)]
+    if not q:
+        parts.append(Part("compose-N3-setup-async", P(run_compose, CCfg(N=3, setup=True, flavours="sa")), dict(b, setup="first node optionally a setup node", flavours="sync and async"), 1800, 7, ["w_error_case"], COMPOSE_FUNCS))
+        parts.append(Part("compose-N4", P(run_compose, CCfg(N=4, indexed=False, kwargs=False)), dict(b, N=4), 2400, 8, ["w_error_case"], COMPOSE_FUNCS))
+    return parts
+
+
 def dataclass_bounds(cfg):
     import dataclasses
 
@@ -227,6 +246,10 @@ def main(argv):
                 "the same describing code evaluated with the plain callables is the reference; z3 proves result equality for all inputs and node functions; "
                 "distinct = distinct program spec")
         return run_check(pid, tier, "translation_validation", dataflow_parts(pid, tier), REAL_ENV_ASSUMPTIONS + ENV_ASSUMPTIONS[:3], rule)
+    if pid == "C19":
+        rule = ("programs x (inputs, outputs) x alias form, all solver-chosen; composed DAG called with fresh symbolic values; reference = original program with the input "
+                "nodes' values substituted; distinct = distinct (program, inputs, outputs, alias form)")
+        return run_check(pid, tier, "translation_validation", compose_parts(pid, tier), REAL_ENV_ASSUMPTIONS, rule)
     print("HARNESS-ERROR unknown property %s" % pid)
     return 2
 
